@@ -466,14 +466,23 @@ class Parser:
         node.ctx = context
         return node
 
+    def literal_value(self, tok: TokenInfo) -> Any:
+        """Value of a NUMBER or STRING token; what the evaluation rejects is a syntax error at that token."""
+        try:
+            return ast.literal_eval(tok.string)
+        except SyntaxError as e:
+            self.raise_syntax_error_known_location(e.msg, tok)
+        except ValueError as e:  # e.g. a lone surrogate in a string literal
+            self.raise_syntax_error_known_location(str(e), tok)
+
     def ensure_real(self, number: TokenInfo) -> float | int:
-        value = ast.literal_eval(number.string)
+        value = self.literal_value(number)
         if not isinstance(value, float | int):
             self.raise_syntax_error_known_location("real number required in complex literal", number)
         return value
 
     def ensure_imaginary(self, number: TokenInfo) -> complex:
-        value = ast.literal_eval(number.string)
+        value = self.literal_value(number)
         if not isinstance(value, complex):
             self.raise_syntax_error_known_location("imaginary number required in complex literal", number)
         return value
@@ -495,9 +504,9 @@ class Parser:
         return left + right
 
     def _concat_strings_in_constant(self, parts: list[TokenInfo]) -> ast.Constant:
-        s = ast.literal_eval(parts[0].string)
+        s = self.literal_value(parts[0])
         for ss in parts[1:]:
-            s = self._add_literals(s, ast.literal_eval(ss.string), parts[0], ss)
+            s = self._add_literals(s, self.literal_value(ss), parts[0], ss)
         args = {
             "value": s,
             "lineno": parts[0].start[0],
